@@ -1,15 +1,15 @@
 """Trace comparison: the git invocations logged by fakegit vs Protocol.trace."""
 import vlib
 
-GLOBAL_FLAGS = ["--no-replace-objects", "-c", "advice.graftFileDeprecated=false"]
+GLOBAL_FLAGS = ["--no-replace-objects", "-c", "core.useReplaceRefs=false", "-c", "advice.graftFileDeprecated=false"]
 
 
 def log_to_invs(log):
     invs = []
     for rec in log:
         argv = rec["argv"]
-        has_flags = argv[:3] == GLOBAL_FLAGS
-        rest = argv[3:] if has_flags else argv
+        has_flags = argv[:len(GLOBAL_FLAGS)] == GLOBAL_FLAGS
+        rest = argv[len(GLOBAL_FLAGS):] if has_flags else argv
         env_ok = bool(rec.get("GIT_DIR_set")) and rec.get("GIT_GRAFT_FILE") == "/dev/null"
         invs.append(("%d%d" % (1 if has_flags else 0, 1 if env_ok else 0), rest, rec))
     return invs
@@ -44,12 +44,12 @@ def compare(log, model_line):
 
 def property_breaches(log):
     """Concrete breaches of C13's own statement visible in a log, independent of the model: an invocation other than
-    the initial `git -C . rev-parse --git-dir` without --no-replace-objects or without GIT_DIR / GIT_GRAFT_FILE=/dev/null."""
+    the initial `git -C . rev-parse --git-dir` without --no-replace-objects -c core.useReplaceRefs=false or without GIT_DIR / GIT_GRAFT_FILE=/dev/null."""
     out = []
     for i, (flags, rest, rec) in enumerate(log_to_invs(log)):
         if i == 0 and rec["argv"][:4] == ["-C", ".", "rev-parse", "--git-dir"]:
             continue
         if flags != "11":
             out.append("invocation %d (%s) runs %s" % (i, " ".join(rec["argv"][:6]),
-                       "without --no-replace-objects" if flags[0] == "0" else "without GIT_DIR / GIT_GRAFT_FILE=/dev/null"))
+                       "without --no-replace-objects -c core.useReplaceRefs=false" if flags[0] == "0" else "without GIT_DIR / GIT_GRAFT_FILE=/dev/null"))
     return out
